@@ -14,6 +14,7 @@ import (
 	"strconv"
 	"strings"
 	"sync"
+	"sync/atomic"
 	"testing"
 	"time"
 
@@ -90,6 +91,19 @@ func TestRegress(t *testing.T) {
 	if r, err := strconv.Atoi(os.Getenv("VERIF_REPLAY_REPS")); err == nil && r > 1 {
 		reps = r
 	}
+	// saved scenarios of TestEventsWhenWaitsAreCancelled (the cancellation races with the wait: repeated)
+	if os.Getenv("VERIF_REPLAY") == "" {
+		wfiles, _ := filepath.Glob("../../regress/c16-waits/*.json")
+		for _, f := range wfiles {
+			var sc waitScen
+			if b, err := os.ReadFile(f); err != nil || json.Unmarshal(b, &sc) != nil || sc.Wait == "" {
+				continue
+			}
+			for i := 0; i < 50; i++ {
+				runWaitCancelled(t, st, sc)
+			}
+		}
+	}
 	for _, f := range files {
 		b, err := os.ReadFile(f)
 		if err != nil {
@@ -165,19 +179,31 @@ func TestEventsConcurrent(t *testing.T) {
 // TestEventsWhenWaitsAreCancelled: rejection listeners must fire for rejections only. An execution waits for a bulkhead
 // permit, a rate limiter permit or a retry delay (an hour each); its context is cancelled meanwhile. That is not a
 // rejection, not a started retry, and not exhaustion.
+type waitScen struct {
+	Wait       string `json:"wait"` // bulkhead | limiter | retry-delay | limiter-after-refusal
+	Async      bool   `json:"async"`
+	CancelUs   int    `json:"cancel_us"` // 0: the context is already cancelled at submission
+	Then       bool   `json:"then_real_rejection"`
+	MaxRetries int    `json:"max_retries,omitempty"` // limiter-after-refusal
+}
+
 func TestEventsWhenWaitsAreCancelled(t *testing.T) {
 	const test = "TestEventsWhenWaitsAreCancelled"
 	st := harness.NewStats(test)
 	defer st.Flush()
 	rapid.Check(t, func(t *rapid.T) {
-		type scen struct {
-			Wait     string `json:"wait"` // bulkhead | limiter | retry-delay
-			Async    bool   `json:"async"`
-			CancelUs int    `json:"cancel_us"` // 0: the context is already cancelled at submission
-			Then     bool   `json:"then_real_rejection"`
-		}
-		sc := scen{Wait: rapid.SampledFrom([]string{"bulkhead", "limiter", "retry-delay"}).Draw(t, "wait"), Async: rapid.Bool().Draw(t, "async"),
+		sc := waitScen{Wait: rapid.SampledFrom([]string{"bulkhead", "limiter", "retry-delay", "limiter-after-refusal"}).Draw(t, "wait"), Async: rapid.Bool().Draw(t, "async"),
 			CancelUs: rapid.SampledFrom([]int{0, 50, 300, 1000}).Draw(t, "cancelUs"), Then: rapid.Bool().Draw(t, "then")}
+		if sc.Wait == "limiter-after-refusal" {
+			sc.MaxRetries = rapid.SampledFrom([]int{1, 3, -1}).Draw(t, "maxRetries")
+		}
+		runWaitCancelled(t, st, sc)
+	})
+}
+
+func runWaitCancelled(t harness.TB, st *harness.Stats, sc waitScen) {
+	const test = "TestEventsWhenWaitsAreCancelled"
+	{
 		var mu sync.Mutex
 		counts := map[string]int{}
 		hit := func(name string) {
@@ -186,6 +212,7 @@ func TestEventsWhenWaitsAreCancelled(t *testing.T) {
 			mu.Unlock()
 		}
 		var pol failsafe.Policy[int]
+		var pols []failsafe.Policy[int]
 		var bh bulkhead.Bulkhead[int]
 		var rl ratelimiter.RateLimiter[int]
 		switch sc.Wait {
@@ -197,6 +224,20 @@ func TestEventsWhenWaitsAreCancelled(t *testing.T) {
 			rl = ratelimiter.SmoothBuilderWithMaxRate[int](time.Hour).WithMaxWaitTime(2 * time.Hour).OnRateLimitExceeded(func(failsafe.ExecutionEvent[int]) { hit("OnRateLimitExceeded") }).Build()
 			rl.TryAcquirePermit()
 			pol = rl
+		case "limiter-after-refusal":
+			// Retry(RateLimiter) on a stopwatch the harness owns: the first attempt is refused for real (one hour to wait,
+			// half an hour allowed), the listener moves the stopwatch on by 40 minutes, so every later attempt is admitted
+			// with a wait of at most 20 minutes -- and the cancellation arrives during that wait. The execution still
+			// carries the refusal as its last error; the listener must not fire for the cancelled wait.
+			var now atomic.Int64
+			rl = ratelimiter.SmoothBuilderWithMaxRate[int](time.Hour).WithMaxWaitTime(30 * time.Minute).OnRateLimitExceeded(func(failsafe.ExecutionEvent[int]) {
+				hit("OnRateLimitExceeded")
+				now.Store(int64(40 * time.Minute))
+			}).Build()
+			ratelimiter.VerifSetStopwatch(rl, func() time.Duration { return time.Duration(now.Load()) })
+			rl.TryAcquirePermit()
+			pols = []failsafe.Policy[int]{retrypolicy.Builder[int]().WithMaxRetries(sc.MaxRetries).WithDelay(0).
+				OnRetriesExceeded(func(failsafe.ExecutionEvent[int]) { hit("OnRetriesExceeded") }).Build(), rl}
 		default:
 			pol = retrypolicy.Builder[int]().WithDelay(time.Hour).WithMaxRetries(3).
 				OnRetryScheduled(func(failsafe.ExecutionScheduledEvent[int]) { hit("OnRetryScheduled") }).
@@ -207,7 +248,10 @@ func TestEventsWhenWaitsAreCancelled(t *testing.T) {
 		}
 		ctx, cancel := context.WithCancel(context.Background())
 		defer cancel()
-		ex := failsafe.NewExecutor[int](pol).WithContext(ctx).
+		if pols == nil {
+			pols = []failsafe.Policy[int]{pol}
+		}
+		ex := failsafe.NewExecutor[int](pols...).WithContext(ctx).
 			OnDone(func(failsafe.ExecutionDoneEvent[int]) { hit("OnDone") }).
 			OnSuccess(func(failsafe.ExecutionDoneEvent[int]) { hit("OnSuccess") }).
 			OnFailure(func(failsafe.ExecutionDoneEvent[int]) { hit("OnFailure") })
@@ -254,6 +298,14 @@ func TestEventsWhenWaitsAreCancelled(t *testing.T) {
 			if c["OnRateLimitExceeded"] != 0 {
 				bad("OnRateLimitExceeded fired %d times although nothing was rejected", c["OnRateLimitExceeded"])
 			}
+		case "limiter-after-refusal":
+			// only the first attempt can have been refused; afterwards the stopwatch stands at 40 minutes and waits are allowed
+			if c["OnRateLimitExceeded"] > 1 {
+				bad("OnRateLimitExceeded fired %d times: once for the refusal of the first attempt, and again for a wait that was cancelled", c["OnRateLimitExceeded"])
+			}
+			if !errors.Is(err, context.Canceled) || c["OnRetriesExceeded"] != 0 || calls != 0 {
+				bad("the cancelled execution ended with %v, OnRetriesExceeded %d, %d invocations", err, c["OnRetriesExceeded"], calls)
+			}
 		default:
 			// the first attempt failed; at most one retry was decided, none was started unless the delay ... which is an hour
 			if c["OnRetry"] != 0 || c["OnRetriesExceeded"] != 0 || c["OnAbort"] != 0 {
@@ -285,7 +337,7 @@ func TestEventsWhenWaitsAreCancelled(t *testing.T) {
 		b, _ := json.Marshal(sc)
 		st.Case(string(b), true, "wait="+sc.Wait)
 		st.Sample(string(b), func() any { return sc })
-	})
+	}
 }
 
 // TestBreakerEventPathConcurrent: goroutines hammer one breaker (executions, Record*, TryAcquirePermit, manual transitions)
